@@ -397,59 +397,85 @@ func decl3(c *Ctx) {
 		}
 		into := fn.Params[1]
 		var problems []string
-		var ctorCall *ssa.Call
+		var ctorCalls []*ssa.Call
 		for _, call := range ir.Calls(fn) {
 			f := ir.Static(call)
 			if f != nil && f.Pkg != nil && c.P.Rel(f.Pkg.Pkg.Path()) == "internal/values" {
-				if ctorCall != nil {
-					problems = append(problems, "more than one constructor call")
-				}
-				ctorCall, _ = call.(*ssa.Call)
+				ctorCalls = append(ctorCalls, call.(*ssa.Call))
 			}
 		}
-		if ctorCall == nil {
+		if len(ctorCalls) == 0 {
 			c.Bad(key, fn.Pos(), "no values.NewX call")
 			continue
 		}
-		cname := ir.Static(ctorCall).Name()
-		// arg 0: phi(into, new) with new iff into == nil
-		a0 := ctorCall.Call.Args[0]
-		phi, isPhi := a0.(*ssa.Phi)
-		okInto := false
-		if isPhi && len(phi.Edges) == 2 {
-			var newAlloc *ssa.Alloc
-			var other ssa.Value
-			for _, e := range phi.Edges {
-				if al, isAl := e.(*ssa.Alloc); isAl && al.Heap {
-					newAlloc = al
-				} else {
-					other = e
+		cname := ir.Static(ctorCalls[0]).Name()
+		for _, cc := range ctorCalls {
+			if ir.Static(cc).Name() != cname {
+				problems = append(problems, "different constructors on different paths")
+			}
+		}
+		intoNilAt := func(b *ssa.BasicBlock, wantNil bool) bool {
+			for _, u := range *into.Referrers() {
+				if bo, isBo := u.(*ssa.BinOp); isBo && (ir.IsNilConst(bo.X) || ir.IsNilConst(bo.Y)) {
+					if bo.Op == token.EQL && ir.HoldsAt(bo, wantNil, b) {
+						return true
+					}
+					if bo.Op == token.NEQ && ir.HoldsAt(bo, !wantNil, b) {
+						return true
+					}
 				}
 			}
-			if newAlloc != nil && other == ssa.Value(into) {
-				// the alloc's block must be dominated by into == nil
-				for _, u := range *into.Referrers() {
-					if bo, isBo := u.(*ssa.BinOp); isBo && (ir.IsNilConst(bo.X) || ir.IsNilConst(bo.Y)) {
-						if (bo.Op == token.EQL && ir.HoldsAt(bo, true, newAlloc.Block())) || (bo.Op == token.NEQ && ir.HoldsAt(bo, false, newAlloc.Block())) {
-							okInto = true
+			return false
+		}
+		// targetOK: t is `into` when into != nil, a fresh allocation when into == nil
+		targetOK := func(t ssa.Value, at *ssa.BasicBlock) bool {
+			switch x := t.(type) {
+			case *ssa.Phi:
+				if len(x.Edges) != 2 {
+					return false
+				}
+				var newAlloc *ssa.Alloc
+				var other ssa.Value
+				for _, e := range x.Edges {
+					if al, isAl := e.(*ssa.Alloc); isAl && al.Heap {
+						newAlloc = al
+					} else {
+						other = e
+					}
+				}
+				return newAlloc != nil && other == ssa.Value(into) && intoNilAt(newAlloc.Block(), true)
+			case *ssa.Parameter:
+				return x == into && intoNilAt(at, false)
+			case *ssa.Alloc:
+				return x.Heap && intoNilAt(at, true)
+			}
+			return false
+		}
+		for _, cc := range ctorCalls {
+			if !targetOK(cc.Call.Args[0], cc.Block()) {
+				problems = append(problems, "the target is not `into`, freshly allocated iff into == nil")
+			}
+			s, f, isF := structFieldSource(cc.Call.Args[1])
+			if !isF || s != ssa.Value(recv) || f != "Value" {
+				problems = append(problems, "the default handed to the constructor is not the receiver's Value field")
+			}
+		}
+		for _, r := range ir.Returns(fn) {
+			okRet := false
+			if len(r.Results) == 2 {
+				if cc, isCall := ir.Unwrap(r.Results[0]).(*ssa.Call); isCall {
+					for _, known := range ctorCalls {
+						if cc == known && r.Results[1] == cc.Call.Args[0] {
+							okRet = true
 						}
 					}
 				}
 			}
-		}
-		if !okInto {
-			problems = append(problems, "the target is not `into`, freshly allocated iff into == nil")
-		}
-		// arg 1: recv.Value
-		s, f, isF := structFieldSource(ctorCall.Call.Args[1])
-		if !isF || s != ssa.Value(recv) || f != "Value" {
-			problems = append(problems, "the default handed to the constructor is not the receiver's Value field")
-		}
-		for _, r := range ir.Returns(fn) {
-			if len(r.Results) != 2 || ir.Unwrap(r.Results[0]) != ssa.Value(ctorCall) || r.Results[1] != a0 {
+			if !okRet {
 				problems = append(problems, "does not return (constructor result, the same into)")
 			}
 		}
+		problems = dedupe(problems)
 		base := strings.TrimSuffix(strings.TrimSuffix(tname, "Opt"), "Arg")
 		if prev, seen := ctor[base]; seen && prev != cname {
 			problems = append(problems, fmt.Sprintf("sibling uses %s, this one %s", prev, cname))
@@ -465,6 +491,18 @@ func decl3(c *Ctx) {
 			c.OK(key, fn.Pos(), "values.%s(into-or-new, receiver.Value); returns that into", cname)
 		}
 	}
+}
+
+func dedupe(in []string) []string {
+	seen := map[string]bool{}
+	var out []string
+	for _, s := range in {
+		if !seen[s] {
+			seen[s] = true
+			out = append(out, s)
+		}
+	}
+	return out
 }
 
 // sameLoad reports whether a and b are the same SSA value or two loads of the
@@ -972,53 +1010,70 @@ func decl5validator(c *Ctx, fn *ssa.Function) {
 	}
 	var problems []string
 	sawTrue := false
+	isKindTest := func(x ssa.Value) (*ssa.BinOp, bool) {
+		bo, isBo := x.(*ssa.BinOp)
+		if !isBo || bo.Op != token.EQL {
+			return nil, false
+		}
+		s, isS := ir.ConstString(bo.Y)
+		if !isS || s != "Arg" {
+			return nil, false
+		}
+		b, f, isF := ir.FieldLoad(bo.X)
+		if !isF || f != "Typ" {
+			return nil, false
+		}
+		ld, isLd := b.(*ssa.UnOp)
+		if !isLd {
+			return nil, false
+		}
+		ia, isIA := ld.X.(*ssa.IndexAddr)
+		if !isIA || ia.X != toks {
+			return nil, false
+		}
+		if z, isC := ir.ConstInt(ia.Index); !isC || z != 0 {
+			return nil, false
+		}
+		return bo, true
+	}
+	// the places a possibly-true result comes from: (value, block it flows out of)
+	type source struct {
+		v  ssa.Value
+		at *ssa.BasicBlock
+	}
+	var sources []source
+	var collect func(v ssa.Value, at *ssa.BasicBlock, depth int)
+	collect = func(v ssa.Value, at *ssa.BasicBlock, depth int) {
+		if phi, isPhi := v.(*ssa.Phi); isPhi && depth < 6 {
+			for i, e := range phi.Edges {
+				collect(e, phi.Block().Preds[i], depth+1)
+			}
+			return
+		}
+		sources = append(sources, source{v, at})
+	}
 	for _, r := range ir.Returns(fn) {
-		v := r.Results[0]
+		collect(r.Results[0], r.Block(), 0)
+	}
+	for _, src := range sources {
+		v := src.v
 		if b, isC := ir.ConstBool(v); isC && !b {
 			continue
 		}
 		sawTrue = true
-		// this return can be true: need err == nil, len(toks) == 1 and kind == Arg
-		if !errIsNilAt(errv, r.Block()) {
+		if !errIsNilAt(errv, src.at) {
 			problems = append(problems, "can return true although the scanner reported an error")
 		}
-		if !lenIsAt(toks, 1, r.Block()) {
+		if !lenIsAt(toks, 1, src.at) {
 			problems = append(problems, "can return true for a token count other than 1")
 		}
-		// the value itself must be toks[0].Typ == TTArg (or constant true dominated by it)
 		okKind := false
-		isKindTest := func(x ssa.Value) (*ssa.BinOp, bool) {
-			bo, isBo := x.(*ssa.BinOp)
-			if !isBo || bo.Op != token.EQL {
-				return nil, false
-			}
-			s, isS := ir.ConstString(bo.Y)
-			if !isS || s != "Arg" {
-				return nil, false
-			}
-			b, f, isF := ir.FieldLoad(bo.X)
-			if !isF || f != "Typ" {
-				return nil, false
-			}
-			ld, isLd := b.(*ssa.UnOp)
-			if !isLd {
-				return nil, false
-			}
-			ia, isIA := ld.X.(*ssa.IndexAddr)
-			if !isIA || ia.X != toks {
-				return nil, false
-			}
-			if z, isC := ir.ConstInt(ia.Index); !isC || z != 0 {
-				return nil, false
-			}
-			return bo, true
-		}
 		if _, ok := isKindTest(v); ok {
 			okKind = true
 		} else if b, isC := ir.ConstBool(v); isC && b {
 			ir.Instrs(fn, func(in ssa.Instruction) {
 				if val, isV := in.(ssa.Value); isV {
-					if bo, ok := isKindTest(val); ok && ir.HoldsAt(bo, true, r.Block()) {
+					if bo, ok := isKindTest(val); ok && ir.HoldsAt(bo, true, src.at) {
 						okKind = true
 					}
 				}
@@ -1028,6 +1083,7 @@ func decl5validator(c *Ctx, fn *ssa.Function) {
 			problems = append(problems, "a true result does not require the single token to be of kind Arg")
 		}
 	}
+	problems = dedupe(problems)
 	if !sawTrue {
 		problems = append(problems, "never returns true")
 	}
